@@ -104,3 +104,6 @@ pub assume_specification<P: core::str::pattern::Pattern>[ str::replace::<P> ](s:
     ensures r@ == str_replace_pat(s@, p, to@);
 pub assume_specification<P: core::str::pattern::Pattern>[ str::starts_with::<P> ](s: &str, p: P) -> (r: bool)
     ensures r == str_starts_with_pat(s@, p);
+pub assume_specification<P: core::str::pattern::Pattern>[ str::ends_with::<P> ](s: &str, p: P) -> (r: bool)
+    where for<'a> P::Searcher<'a>: core::str::pattern::ReverseSearcher<'a>,
+    ensures r == str_ends_with_pat(s@, p);
